@@ -119,7 +119,10 @@ def check_point(case):
         dev = np.linalg.eigvals(D)
         if np.any(np.abs(dev.imag) > 1e-9 * np.abs(dev)) or np.any(dev.real <= 0):
             out.fail("interdiffusivity_eigenvalues", "%s x=%r T=%r: interdiffusivity %r has eigenvalues %r" % (name, x.tolist(), T, D.tolist(), dev.tolist()))
-        Dtr = np.array(th.getTracerDiffusivity(xq, T, phase=ph), dtype=float)
+        # asked right after a query at a neighbouring state that kept its cache: the answer must be the one for the requested state
+        th.getTracerDiffusivity(xq, T - case.get("dT_prev", 0.005), removeCache=False, phase=ph)
+        Dtr = np.array(th.getTracerDiffusivity(xq, T, removeCache=False, phase=ph), dtype=float)
+        th.clearCache()
         if np.any(~np.isfinite(Dtr)) or np.any(Dtr <= 0):
             out.fail("tracer_not_positive", "%s x=%r T=%r: tracer diffusivities %r" % (name, x.tolist(), T, Dtr.tolist()))
         if th.mobCallables.get(ph) is not None:
